@@ -539,7 +539,7 @@ func C11(e *core.Env) {
 
 func C04(e *core.Env) {
 	res := e.Res
-	res.Rule = "cases = (unreadable data text, entry point): empty text, every 5th (quick) / every (thorough) proper prefix of two valid documents cut inside the first JSON value, UTF-16/UTF-32/BOM/Latin-1 encodings, YAML/RAML/XML/Rego texts, JSON that JSON-LD rejects (non-string @id, bad @context, bad @type, @value+@id, bad @base, invalid @language, contexts and documents named by a URL that cannot be loaded, conflicting @index values found only while the node objects are merged, @graph: null / a scalar @graph / @language or @direction used as a property - rejected by the flattening step with an uncoded error) x Validate / ValidateWithConfiguration / ValidateCompiled / ValidateCompiledWithConfiguration (also with the debug flag set) and the built acv binary (validate, normalize); expected: an error (non-zero exit, nothing on stdout), never a report; histories (a readable document first, then the unreadable one three times); paired calls: the unreadable text and a readable document validated at once, both held at the same event (data parsing start / done, normalisation start, evaluation start) through the event channel - started one after the other in either order, released one after the other in either order; " +
+	res.Rule = "cases = (unreadable data text, entry point): empty text, every 5th (quick) / every (thorough) proper prefix of two valid documents cut inside the first JSON value, UTF-16/UTF-32/BOM/Latin-1 encodings, YAML/RAML/XML/Rego texts, JSON that JSON-LD rejects (non-string @id, bad @context, bad @type, @value+@id, bad @base, invalid @language, contexts and documents named by a URL that cannot be loaded, conflicting @index values found only while the node objects are merged, @graph: null / a scalar @graph / @language or @direction used as a property - rejected by the flattening step with an uncoded error) x Validate / ValidateWithConfiguration / ValidateCompiled / ValidateCompiledWithConfiguration (also with the debug flag set) and the built acv binary (validate, normalize); expected: an error (non-zero exit, nothing on stdout), never a report; histories (a readable document first, then the unreadable one three times); paired calls: the unreadable text and a readable document validated at once, both held at the same point (inside the send of the data-parsing start / done, normalisation start or evaluation start event: the listener stops receiving after the event before it) through the event channel - started one after the other in either order, released one after the other in either order; " +
 		"non-trivial = the text is not empty; distinct by (text, entry)"
 	texts := map[string]string{"empty": "", "space": "   \n", "open-brace": "{", "open-bracket": "[", "raml": PoolDataGarbage, "yaml": "a: 1\nb: [2\n",
 		"xml": "<?xml version=\"1.0\"?><a/>", "rego": "package x\np { true }\n", "single-quote": "{'@id': 'x'}", "trailing-comma": `{"@id": "http://x/a",}`,
@@ -559,15 +559,15 @@ func C04(e *core.Env) {
 		// node objects: one node given two different @index values
 		"jsonld-conflicting-indexes-container": `{"@context": {"ex": "http://example.org/ns#", "byName": {"@id": "ex:child", "@container": "@index"}}, "@id": "http://x/a", "@type": "ex:Thing", "byName": {"one": {"@id": "http://x/n", "@type": "ex:Thing"}, "two": {"@id": "http://x/n"}}}`,
 		// expansion succeeds; the flattening step rejects them with an error that is not one of the coded JSON-LD errors
-		"jsonld-graph-null":            `{"@graph": null}`,
-		"jsonld-graph-number":          `{"@graph": 5}`,
-		"jsonld-graph-string-in-node":  `{"@id": "http://x/a", "@graph": "s"}`,
-		"jsonld-graph-null-nested":     `{"@id": "http://x/a", "http://x/p": {"@graph": null}}`,
-		"jsonld-graph-null-in-array":   `[{"@graph": null}]`,
-		"jsonld-language-as-property":  `{"@id": "http://x/a", "@language": "en"}`,
-		"jsonld-direction-next-to-graph": `{"@graph": [], "@direction": "ltr"}`,
-		"jsonld-direction-as-property": `{"@id": "http://x/a", "@type": ["http://example.org/ns#Thing"], "@direction": "ltr"}`,
-		"jsonld-conflicting-indexes-expanded":  `[{"@id": "http://x/a", "@type": ["http://example.org/ns#Thing"], "http://example.org/ns#child": [{"@id": "http://x/n", "@index": "one", "@type": ["http://example.org/ns#Thing"]}, {"@id": "http://x/n", "@index": "two"}]}]`}
+		"jsonld-graph-null":                   `{"@graph": null}`,
+		"jsonld-graph-number":                 `{"@graph": 5}`,
+		"jsonld-graph-string-in-node":         `{"@id": "http://x/a", "@graph": "s"}`,
+		"jsonld-graph-null-nested":            `{"@id": "http://x/a", "http://x/p": {"@graph": null}}`,
+		"jsonld-graph-null-in-array":          `[{"@graph": null}]`,
+		"jsonld-language-as-property":         `{"@id": "http://x/a", "@language": "en"}`,
+		"jsonld-direction-next-to-graph":      `{"@graph": [], "@direction": "ltr"}`,
+		"jsonld-direction-as-property":        `{"@id": "http://x/a", "@type": ["http://example.org/ns#Thing"], "@direction": "ltr"}`,
+		"jsonld-conflicting-indexes-expanded": `[{"@id": "http://x/a", "@type": ["http://example.org/ns#Thing"], "http://example.org/ns#child": [{"@id": "http://x/n", "@index": "one", "@type": ["http://example.org/ns#Thing"]}, {"@id": "http://x/n", "@index": "two"}]}]`}
 	u16 := utf16.Encode([]rune(PoolDataGood))
 	var b16 bytes.Buffer
 	b16.Write([]byte{0xff, 0xfe})
@@ -689,15 +689,21 @@ func C04(e *core.Env) {
 					return pkg.ValidateCompiledWithConfiguration(compiled, text, false, ch, clockA, rc)
 				}
 			}
-			for _, stage := range []events.EventType{events.InputDataParsingStart, events.InputDataParsingDone, events.InputDataNormalizationStart, events.OpaValidationStart} {
+			// parking points: inside the send of InputDataParsingStart (everything before the decoder has run), of InputDataParsingDone
+			// (decoded), of InputDataNormalizationStart, of OpaValidationStart (indexed)
+			first := beforeFirst
+			if en == "ValidateWithConfiguration" {
+				first = events.RegoCompilationDone
+			}
+			for _, stage := range []events.EventType{first, events.InputDataParsingStart, events.InputDataParsingDone, events.InputDataNormalizationDone} {
 				for _, so := range [][2][]int{{{0, 1}, {0, 1}}, {{0, 1}, {1, 0}}, {{1, 0}, {0, 1}}, {{1, 0}, {1, 0}}} {
 					order := fmt.Sprintf("started in the order %v, released in the order %v", so[0], so[1])
 					outs := startedThenSerial(stage, 2*time.Second, so[0], so[1], []func(ch *chan events.Event) (string, error){call(d), call(PoolDataGood)})
 					if !strings.HasPrefix(outs[0], "error: ") {
-						res.Violate("impl-violates-property", fmt.Sprintf("unreadable data (%s) yields a report from %s while another call validates a readable document (both held at %s; %s)", n, en, eventName(stage), order),
-							map[string]any{"data": d, "data_kind": n, "entry_point": en, "other_call_data": PoolDataGood, "schedule": fmt.Sprintf("both calls held at their %s event through the event channel; %s (0 = the unreadable text, 1 = the readable one); each call is started when the one before is held, each is released when the one before has returned", eventName(stage), order), "returned": core.Trunc(outs[0], 1500), "other_call_returned": core.Trunc(outs[1], 300)})
+						res.Violate("impl-violates-property", fmt.Sprintf("unreadable data (%s) yields a report from %s while another call validates a readable document (both held %s; %s)", n, en, parkName(stage), order),
+							map[string]any{"data": d, "data_kind": n, "entry_point": en, "other_call_data": PoolDataGood, "schedule": fmt.Sprintf("both calls held %s (their listeners stop receiving); %s (0 = the unreadable text, 1 = the readable one); each call is started when the one before is held, each is released when the one before has returned", parkName(stage), order), "returned": core.Trunc(outs[0], 1500), "other_call_returned": core.Trunc(outs[1], 300)})
 					}
-					res.Case(fmt.Sprintf("paired|%s|%s|%s|%v", n, en, eventName(stage), order), d != "")
+					res.Case(fmt.Sprintf("paired|%s|%s|%s|%v", n, en, parkName(stage), order), d != "")
 					res.Count("kind=paired-with-a-readable-call")
 				}
 			}
@@ -744,6 +750,13 @@ func C04(e *core.Env) {
 			res.Case(n+"|acv "+sub[0], texts[n] != "")
 		}
 	}
+}
+
+func parkName(after events.EventType) string {
+	if after == beforeFirst {
+		return "inside the send of their first event"
+	}
+	return "inside the send of the event that follows " + eventName(after)
 }
 
 func sortStrings(l []string) {
